@@ -16,9 +16,13 @@ MCNameOf == [x \in NodeIds \cup LinkIds \cup OrigIds \cup DestIds |->
                  [] x \in OrigIds -> (IF x = "o1" THEN "O" ELSE "R")
                  [] x \in DestIds -> "D"]
 
-\* the invalidation table extracted from the implementation's decorators by the harness (empty file name: the transcription)
-MCInvalTable == IF IOEnv.INVAL_FILE = "" THEN <<>>
-                ELSE LET j == JsonDeserialize(IOEnv.INVAL_FILE) IN [op \in DOMAIN j |-> {j[op][i] : i \in DOMAIN j[op]}]
+\* the invalidation table extracted from the implementation's decorators by the harness, passed as constants of the
+\* configuration (UseImplTable = FALSE: the transcription in NetBuild!Inval)
+CONSTANTS UseImplTable, InvAddNode, InvAddNodes, InvAddLink, InvAddLinks, InvAddOrigin, InvAddDestination
+MCInvalTable == IF UseImplTable
+                THEN [add_node |-> InvAddNode, add_nodes |-> InvAddNodes, add_link |-> InvAddLink, add_links |-> InvAddLinks,
+                      add_origin |-> InvAddOrigin, add_destination |-> InvAddDestination]
+                ELSE <<>>
 
 VARIABLES S, res, hist, depth
 vars == <<S, res, hist, depth>>
@@ -140,5 +144,13 @@ Check ==
      /\ Assert(WellFormedAccepted(c, res'), <<"C09 WellFormedAccepted violated", hist'>>)
      /\ Assert(allOk => GraphOf(S') = Described(ok), <<"C09 GraphIsDescribed violated", hist'>>)
      /\ Assert(c[1] = "is_valid" => (res'[2] <=> Violated(S) = {}), <<"C06 ValidIff violated", hist'>>)
-Step == (Profile # "ind" => Check) /\ Emit
+\* profile "ind": a violated inductive step is reported with everything the harness needs to rebuild the pre-state in
+\* the real library (graph in insertion order, which lookups are memoised) and the offending call
+IndCheck ==
+  Assert(CacheCoherent(S'),
+         "INDFAIL " \o ToJson([nodes |-> S.nodes, edges |-> [i \in DOMAIN S.edges |-> <<S.edges[i][1], S.link[S.edges[i]], S.edges[i][2]>>],
+                               orig |-> [i \in DOMAIN NodesWith(S, S.orig) |-> <<S.orig[NodesWith(S, S.orig)[i]], NodesWith(S, S.orig)[i]>>],
+                               dest |-> [i \in DOMAIN NodesWith(S, S.dest) |-> <<S.dest[NodesWith(S, S.dest)[i]], NodesWith(S, S.dest)[i]>>],
+                               cached |-> {k \in Lookups : S.cache[k].has}, call |-> hist'[Len(hist')]]))
+Step == (IF Profile = "ind" THEN IndCheck ELSE Check) /\ Emit
 =============================================================================
